@@ -12,8 +12,9 @@
                       fft2(ifft2(G)) = G for equal `norm` (the model returns the linked array); fft2 of the same array object with
                       the same norm is the same spectrum.  fftshift / ifftshift are the index maps i -> (i -+ n//2) mod n and preserve
                       the sum over the shifted axes.
-* finite sums       - Sigma2(nr, nc, lambda i j. body): sum over the 2-D index range; equal summands give equal sums by z3's array
-                      extensionality on the lambda (no further sum algebra is assumed).
+* finite sums       - Sigma2(nr, nc, <summand>): sum over the 2-D index range; syntactically equal summands give equal sums; pointwise
+                      equal summands give equal sums through explicit extensionality instances (`sum_ext_hint`); no other sum
+                      algebra is assumed.
 * A4 extra schema   - angle addition / negation / zero for cos, sin, with the arithmetic side condition kept as the antecedent.
 """
 from __future__ import annotations
@@ -33,7 +34,6 @@ from ..interp import RaiseSig, NS
 
 I_, R_ = z3.IntSort(), z3.RealSort()
 TAN = z3.Function("tan", R_, R_)  # uninterpreted; no facts are needed about it
-SIG2 = z3.Function("Sigma2", I_, I_, z3.ArraySort(I_, I_, R_), R_)
 
 
 # ------------------------------------------------------------------------------------------------ real helpers
@@ -373,13 +373,74 @@ def canon_dim(d):
     return z3.simplify(t)
 
 
-def sig2(nr, nc, body):
-    """sum_{0<=i<nr, 0<=j<nc} body(i, j)  (real);  the summand is 0 outside the range so that extensionality is total."""
+TAG = z3.DeclareSort("Summand")
+_TAGF = {}
+
+
+def _free_consts(t, skip):
+    out, seen, stack = [], set(), [t]
+    while stack:
+        e = stack.pop()
+        k = e.get_id()
+        if k in seen:
+            continue
+        seen.add(k)
+        if z3.is_var(e) or z3.is_quantifier(e):
+            raise OutOfSubset("finite-sum summand under a binder")
+        if z3.is_const(e) and e.decl().kind() == z3.Z3_OP_UNINTERPRETED:
+            if not any(e.eq(x) for x in skip):
+                out.append(e)
+            continue
+        stack.extend(reversed(e.children()))
+    return out
+
+
+def summand_tag(body, bound):
+    """An opaque name for the summand  lambda i j. body : a function symbol determined by the summand's syntactic skeleton,
+    applied to the free constants of the body.  Syntactically equal summands get equal tags (congruence); nothing else is
+    known about tags - every other equality of sums must come from an explicit extensionality instance (`sum_ext_hint`)."""
+    consts = _free_consts(body, bound)
+    consts.sort(key=lambda c: str(c))
+    ph = [z3.Const(f"ph!{q}", c.sort()) for q, c in enumerate(consts)]
+    skel = z3.substitute(body, *zip(consts, ph)) if consts else body
+    key = skel.sexpr()
+    f = _TAGF.get(key)
+    if f is None:
+        nm = f"summand!{len(_TAGF)}"
+        f = z3.Function(nm, *[c.sort() for c in consts], TAG) if consts else z3.Const(nm, TAG)
+        _TAGF[key] = f
+    return f(*consts) if consts else f
+
+
+SIG2 = z3.Function("Sigma2", I_, I_, TAG, R_)
+
+
+def _sig2_parts(nr, nc, body):
     i, j = z3.Int("i!s2"), z3.Int("j!s2")
     b = z3.simplify(r_term(body(i, j)))
     nr, nc = canon_dim(nr), canon_dim(nc)
-    inr = z3.And(i >= 0, i < nr, j >= 0, j < nc)
-    return Sym(SIG2(nr, nc, z3.Lambda([i, j], z3.If(inr, b, z3.RealVal(0)))))
+    return i, j, nr, nc, b
+
+
+def sig2(nr, nc, body):
+    """sum_{0<=i<nr, 0<=j<nc} body(i, j)  (real)"""
+    i, j, nr, nc, b = _sig2_parts(nr, nc, body)
+    return Sym(SIG2(nr, nc, summand_tag(b, (i, j))))
+
+
+def sum_ext_hint(ctx, nr, nc, body_a, body_b):
+    """Sigma-extensionality instance (TRUSTED schema, valid for every pair of summands):
+         (forall 0<=i<nr, 0<=j<nc: a(i,j) = b(i,j))  =>  sum_ij a(i,j) = sum_ij b(i,j)"""
+    i, j, nr_, nc_, ba = _sig2_parts(nr, nc, body_a)
+    _, _, _, _, bb = _sig2_parts(nr, nc, body_b)
+    inr = z3.And(i >= 0, i < nr_, j >= 0, j < nc_)
+    ctx.assume(z3.Implies(z3.ForAll([i, j], z3.Implies(inr, ba == bb)), sig2(nr, nc, body_a).t == sig2(nr, nc, body_b).t))
+
+
+def energy_hint(ctx, a, ga, b, gb):
+    """extensionality instance for  sum|a[ga,i,j]|^2  vs  sum|b[gb,i,j]|^2"""
+    fa, fb = a.fn, b.fn
+    sum_ext_hint(ctx, a.shape[-2], a.shape[-1], lambda i, j: abs2(fa(*ga, i, j)), lambda i, j: abs2(fb(*gb, i, j)))
 
 
 def energy(arr, g=()):
@@ -650,6 +711,60 @@ def tl_get(x, t, *idx):
 # ------------------------------------------------------------------------------------------------ A4 extra schema: angle addition
 
 
+def _poly(t):
+    """Exact polynomial normal form {sorted tuple of atom ids: Fraction} of a real/int z3 term; anything that is not +, -, *,
+    a numeral, ToReal or division is an atom (division by a non-numeral d is multiplication by the atom 1/d)."""
+    def const(c):
+        return {(): Fraction(c)} if c != 0 else {}
+
+    def mul(p, q):
+        r = {}
+        for m1, c1 in p.items():
+            for m2, c2 in q.items():
+                m = tuple(sorted(m1 + m2))
+                r[m] = r.get(m, 0) + c1 * c2
+        return {m: c for m, c in r.items() if c != 0}
+
+    def add(p, q, sign=1):
+        r = dict(p)
+        for m, c in q.items():
+            r[m] = r.get(m, 0) + sign * c
+        return {m: c for m, c in r.items() if c != 0}
+
+    if z3.is_rational_value(t):
+        return const(Fraction(t.numerator_as_long(), t.denominator_as_long()))
+    if z3.is_int_value(t):
+        return const(t.as_long())
+    if z3.is_app(t):
+        k = t.decl().kind()
+        ch = t.children()
+        if k == z3.Z3_OP_ADD:
+            r = {}
+            for c in ch:
+                r = add(r, _poly(c))
+            return r
+        if k == z3.Z3_OP_SUB:
+            r = _poly(ch[0])
+            for c in ch[1:]:
+                r = add(r, _poly(c), -1)
+            return r
+        if k == z3.Z3_OP_UMINUS:
+            return add({}, _poly(ch[0]), -1)
+        if k == z3.Z3_OP_MUL:
+            r = const(1)
+            for c in ch:
+                r = mul(r, _poly(c))
+            return r
+        if k == z3.Z3_OP_TO_REAL and (z3.is_int_value(ch[0])):
+            return const(ch[0].as_long())
+        if k == z3.Z3_OP_DIV:
+            d = _poly(ch[1])
+            if list(d.keys()) == [()]:
+                return mul(_poly(ch[0]), const(1 / d[()]))
+            return mul(_poly(ch[0]), {(("inv", ch[1].get_id()),): Fraction(1)})
+    return {((("atom", t.get_id())),): Fraction(1)}
+
+
 def trig_schema(terms):
     """Ground instances of
          t = a + b  =>  cos t = cos a cos b - sin a sin b   and   sin t = sin a cos b + cos a sin b
@@ -668,18 +783,30 @@ def trig_schema(terms):
     COS, SIN = reals.F["cos"], reals.F["sin"]
     facts = []
 
-    def is_zero(t):
-        s = z3.simplify(t, som=True)
-        return z3.is_rational_value(s) and s.numerator_as_long() == 0
+    polys = {}
+
+    def poly(t):
+        k = t.get_id()
+        if k not in polys:
+            polys[k] = _poly(t)
+        return polys[k]
+
+    def is_zero(*signed):
+        """sum of sign * term is the zero polynomial (atoms = non-arithmetic subterms)"""
+        acc = {}
+        for sign, t in signed:
+            for mono, c in poly(t).items():
+                acc[mono] = acc.get(mono, 0) + sign * c
+        return all(c == 0 for c in acc.values())
 
     for a in args:
-        if is_zero(a):
+        if is_zero((1, a)):
             facts.append(z3.Implies(a == 0, z3.And(COS(a) == 1, SIN(a) == 0)))
     for a, b in itertools.combinations_with_replacement(args, 2):
-        if a is not b and is_zero(a + b):
+        if a is not b and is_zero((1, a), (1, b)):
             facts.append(z3.Implies(a + b == 0, z3.And(COS(b) == COS(a), SIN(b) == -SIN(a))))
         for t in args:
-            if is_zero(t - a - b):
+            if is_zero((1, t), (-1, a), (-1, b)):
                 facts.append(z3.Implies(t == a + b, z3.And(COS(t) == COS(a) * COS(b) - SIN(a) * SIN(b),
                                                            SIN(t) == SIN(a) * COS(b) + COS(a) * SIN(b))))
     return facts
@@ -857,7 +984,13 @@ def install(reg):
     prev_set = reg.setitem_models.get(SymArr)
 
     def arr_setitem(interp, base, key, value):
-        if isinstance(key, SymArr) and key.kind == "bool" and not base.pylist and isinstance(value, float) and value == float("inf"):
+        def is_mask(k):
+            if not isinstance(k, SymArr) or k.ndim != base.ndim:
+                return False
+            e = _probe_elem(k)
+            return isinstance(e, Sym) and e.is_bool
+
+        if is_mask(key) and not base.pylist and isinstance(value, float) and value == float("inf"):
             if tuple(V._dim_lit(d) for d in key.shape) != tuple(V._dim_lit(d) for d in base.shape) and key.ndim != base.ndim:
                 raise OutOfSubset("boolean mask of different rank")
             kf, of = key.fn, base.fn
